@@ -236,6 +236,10 @@ func c06Eval(e *Env, cfg Cfg, img []byte, sizes []int, allowedA, allowedB []int,
 			if err != nil || l == 0 {
 				return
 			}
+			if l < 0 || l > len(img) {
+				err = fmt.Errorf("reader announces an event of %d bytes in a file of %d bytes", l, len(img))
+				return
+			}
 			buf := make([]byte, l+8)
 			tot := 0
 			for {
